@@ -98,9 +98,7 @@ def canon(table, row):
     row = dict(row)
     _, _, _, sc, jc, _ = TABLES[table]
     a = row.get(sc)
-    j = row.get(jc) if jc else None
-    if isinstance(j, str):        # uncached getters of raw rows do not decode
-        j = json.loads(j)
+    j = row.get(jc) if jc else None      # NOT normalised: a JSON column handed out as a string is a difference
     rest = {k: v for k, v in row.items() if k not in (sc, jc)}
     # a snapshot: the caller may mutate the row object later
     return json.loads(json.dumps([a, j, rest], sort_keys=True, default=str))
